@@ -152,6 +152,17 @@ class RawExpr(ir.Expr):
         raise ir.Undefined("raw")
 
 
+class RawStmt(ir.Stmt):
+    def __init__(self, text):
+        self.text = text
+
+    def src(self, ind):
+        return ind + self.text
+
+    def run(self, st, env):
+        raise ir.Undefined("raw")
+
+
 def m_inaccessible(p, r):
     # the printer adds `mod hidden { fn secret(): Int32 {...} pub fn open(): Int32 {...} }` to every C05 program
     s = sites(p, lambda n: isinstance(n, ir.Expr) and n.ty == INT32 and not isinstance(n, ir.Lit))
@@ -189,6 +200,11 @@ def m_immutable_assign(p, r):
     if not cands:
         return None
     label, blk, i, s = r.choice(cands)
+    if r.random() < 0.4:
+        # the same fault inside a closure that captures the binding (plain or compound assignment)
+        op = r.choice(["=", "="] + (["+="] if s.ty.kind in ("Int32", "Int64", "Float64") else []))
+        blk.stmts.insert(i + 1, RawStmt("let zz_%s: (): () = ||: () { %s %s %s; };" % (s.name, s.name, op, s.name)))
+        return "immutable-assign", "non-mut let %s reassigned (%s) inside a lambda that captures it, in %s" % (s.name, op, label)
     blk.stmts.insert(i + 1, ir.Assign(ir.Var(s.name, s.ty), ir.Var(s.name, s.ty)))
     return "immutable-assign", "non-mut let %s reassigned in %s" % (s.name, label)
 
